@@ -827,12 +827,37 @@ pub fn make_bp<C: Cv>(side: &Side, role: &str, mut events: Option<&mut Vec<Value
             ev["parties"] = json!(t.party_capacity);
             if !matches!(op, GOp::View { .. }) {
                 // the stored table itself, read through a mirror of the struct's derived layout (not through the view iterators)
-                let raw = GensM::<C::G>::deserialize_with_mode(&ser_c(t)[..], Compress::Yes, Validate::No).expect("gens mirror layout");
                 let tab = |v: &Vec<Vec<C::G>>| Value::Array(v.iter().map(|row| Value::Array(row.iter().map(enc_p::<C>).collect())).collect());
-                ev["G"] = tab(&raw.g_vec);
-                ev["H"] = tab(&raw.h_vec);
-                ev["rawcap"] = json!(raw.gens_capacity);
-                ev["rawparties"] = json!(raw.party_capacity);
+                let ser = ser_c(t);
+                match GensM::<C::G>::deserialize_with_mode(&ser[..], Compress::Yes, Validate::No) {
+                    // (a trailing-bytes check: a different layout may happen to parse as a shorter table)
+                    Ok(raw) if ser_c(&raw) == ser => {
+                        ev["G"] = tab(&raw.g_vec);
+                        ev["H"] = tab(&raw.h_vec);
+                        ev["rawcap"] = json!(raw.gens_capacity);
+                        ev["rawparties"] = json!(raw.party_capacity);
+                        ev["src"] = json!("stored");
+                    }
+                    _ => {
+                        // the serialisation no longer has the derived layout (not a property): read the table through the public views instead
+                        let (cap, np) = (t.gens_capacity, t.party_capacity);
+                        let split = |all: Vec<C::G>| -> Vec<Vec<C::G>> { (0..np).map(|j| all.iter().skip(j * cap).take(cap).cloned().collect()).collect() };
+                        let g = catch_unwind(AssertUnwindSafe(|| (split(t.G(cap, np).cloned().collect()), split(t.H(cap, np).cloned().collect()))));
+                        match g {
+                            Ok((gv, hv)) => {
+                                ev["G"] = tab(&gv);
+                                ev["H"] = tab(&hv);
+                            }
+                            Err(_) => {
+                                ev["G"] = json!([]);
+                                ev["H"] = json!([]);
+                            }
+                        }
+                        ev["rawcap"] = json!(cap);
+                        ev["rawparties"] = json!(np);
+                        ev["src"] = json!("views");
+                    }
+                }
             }
             evs.push(ev);
         }
